@@ -14,7 +14,7 @@ from hypothesis import strategies as st
 from vlib.runner import Clause, REPO, VERIF_DIR
 from vlib import gen, objs
 from vlib import refs_labels as RL
-from vlib.digest import digest, digest_diff
+from vlib.digest import digest, digest_diff, parameter_mutation
 from vlib.tol import close, describe
 
 import menpo.landmark.labels as ML
@@ -262,20 +262,37 @@ def s_select():
     return s_graph()
 
 
-def check_graph_case(case, ctx):
+def check_graph_case(case, ctx, derive=False):
     """Clauses 1 and 2 on one graph case; returns the menpo dumps (one per op)."""
     dumps = []
-    for op in case["ops"]:
+    for k_op, op in enumerate(case["ops"]):
         g = RL.build_graph(case)
+        if derive and k_op % 2 == 1:
+            # the group the operation runs on has a past: every label of its ancestor was read once, then the group was
+            # derived from that ancestor through the public from_vector route (same structure, all points moved by +8,
+            # exact in binary). What a label selects is decided by the group's CURRENT points.
+            for nm, _m in case["labels"]:
+                try:
+                    g.get_label(nm)
+                except ValueError:
+                    pass  # a label with an empty mask selects nothing
+            shifted = np.asarray(g.points, dtype=float) + 8.0
+            g = g.from_vector(shifted.ravel())
+            case_ref = dict(case, pts=[[float(v) for v in row] for row in shifted])
+            ctx.event("operand derived from a group whose labels were read")
+        else:
+            case_ref = case
         before = digest(g)
         r, res = RL.apply_op(g, op)
         after = digest(g)
         tag = OPNAME[op["op"]]
+        dd = parameter_mutation(before, after)
         ctx.expect(
-            before == after,
+            dd is None,
             "%s.receiver_mutated" % tag,
-            lambda: "op %r on labels %r: %r" % (op, case["labels"], digest_diff(before, after)),
+            lambda: "op %r on labels %r: %r" % (op, case["labels"], dd),
         )
+        case_saved, case = case, case_ref
         spec = RL.ref_op(case, op)
         compare(ctx, case, op, spec, res)
         if r is not None and op["op"] == "get" and spec is not None:
@@ -285,13 +302,14 @@ def check_graph_case(case, ctx):
             ctx.expect(np.array_equal(np.asarray(r.points), np.array(rows, dtype=float).reshape(len(rows), case["d"])),
                        "get_label.points", "rows under the mask differ")
         dumps.append(res)
+        case = case_saved
     return dumps
 
 
 def c_select(case, ctx):
     ctx.nontrivial(is_nontrivial(case))
     ctx.event("n_labels=%d" % len(case["labels"]))
-    check_graph_case(case, ctx)
+    check_graph_case(case, ctx, derive=True)
 
 
 # ------------------------------------------------------------------------------------------ 3
